@@ -100,6 +100,39 @@ size_t mxGetN(const mxArray* pm) { return pm->n; }
 mxClassID mxGetClassID(const mxArray* pm) { return pm->classid; }
 bool mxIsDouble(const mxArray* pm) { return pm->classid == mxDOUBLE_CLASS; }
 bool mxIsComplex(const mxArray* pm) { return pm->is_complex != 0; }
+bool mxIsEmpty(const mxArray* pm) { return pm->m == 0 || pm->n == 0; }
+size_t mxGetNumberOfElements(const mxArray* pm) { return pm->m * pm->n; }
+mwSize mxGetNumberOfDimensions(const mxArray*) { return 2; }
+size_t mxGetElementSize(const mxArray* pm) {
+  switch (pm->classid) {
+    case mxLOGICAL_CLASS: case mxINT8_CLASS: case mxUINT8_CLASS: return 1;
+    case mxCHAR_CLASS: case mxINT16_CLASS: case mxUINT16_CLASS: return 2;
+    case mxSINGLE_CLASS: case mxINT32_CLASS: case mxUINT32_CLASS: return 4;
+    case mxDOUBLE_CLASS: case mxINT64_CLASS: case mxUINT64_CLASS: return 8;
+    default: return sizeof(void*);
+  }
+}
+bool mxIsNumeric(const mxArray* pm) { return pm->classid >= mxDOUBLE_CLASS && pm->classid <= mxUINT64_CLASS; }
+bool mxIsChar(const mxArray* pm) { return pm->classid == mxCHAR_CLASS; }
+bool mxIsLogical(const mxArray* pm) { return pm->classid == mxLOGICAL_CLASS; }
+bool mxIsCell(const mxArray* pm) { return pm->classid == mxCELL_CLASS; }
+bool mxIsStruct(const mxArray* pm) { return pm->classid == mxSTRUCT_CLASS; }
+bool mxIsSingle(const mxArray* pm) { return pm->classid == mxSINGLE_CLASS; }
+bool mxIsInt8(const mxArray* pm) { return pm->classid == mxINT8_CLASS; }
+bool mxIsUint8(const mxArray* pm) { return pm->classid == mxUINT8_CLASS; }
+bool mxIsInt16(const mxArray* pm) { return pm->classid == mxINT16_CLASS; }
+bool mxIsUint16(const mxArray* pm) { return pm->classid == mxUINT16_CLASS; }
+bool mxIsInt32(const mxArray* pm) { return pm->classid == mxINT32_CLASS; }
+bool mxIsUint32(const mxArray* pm) { return pm->classid == mxUINT32_CLASS; }
+bool mxIsInt64(const mxArray* pm) { return pm->classid == mxINT64_CLASS; }
+bool mxIsUint64(const mxArray* pm) { return pm->classid == mxUINT64_CLASS; }
+bool mxIsClass(const mxArray* pm, const char* classname) {
+  return pm->classid == mxOBJECT_CLASS ? std::strcmp(pm->classname, classname) == 0
+       : (pm->classid == mxDOUBLE_CLASS && std::strcmp(classname, "double") == 0);
+}
+bool mxIsSparse(const mxArray*) { return false; }
+bool mxIsScalar(const mxArray* pm) { return pm->m == 1 && pm->n == 1; }
+mxChar* mxGetChars(const mxArray* pm) { return pm->classid == mxCHAR_CLASS ? static_cast<mxChar*>(pm->data) : nullptr; }
 
 double mxGetScalar(const mxArray* pm) {
   // first element converted to double; 0.0 for cell/struct (documented) and other non-numerics.
